@@ -524,13 +524,13 @@ static void runMergeTask(W& w, const MergeTask& t, char oracle)
 
 // ---------------------------------------------------------------------------------------------
 // C17 alphabet (state-relative)
-constexpr int SYM_PER_EP = 31;
+constexpr int SYM_PER_EP = 32;
 // endpoint D takes part with a reduced symbol set {U, F, I, L, payload-type 0}
 constexpr int ND = 5;
 static const int kDKinds[ND] = {0, 2, 5, 6, 12};
 constexpr int EPLESS = 3 * SYM_PER_EP + ND;   // first endpoint-less symbol
 constexpr int NSYM = EPLESS + 5;
-static const char* kSymName[SYM_PER_EP] = {"U", "UU", "F", "Ft", "F2", "I", "L", "Ib", "Lb", "Lv", "Lt", "It", "Z", "E", "O", "H", "UF", "P", "UI", "UL", "P1", "T0", "L0", "Z0", "Id", "Ld", "Ld0", "Sh", "Sl", "Ir", "XF"};
+static const char* kSymName[SYM_PER_EP] = {"U", "UU", "F", "Ft", "F2", "I", "L", "Ib", "Lb", "Lv", "Lt", "It", "Z", "E", "O", "H", "UF", "P", "UI", "UL", "P1", "T0", "L0", "Z0", "Id", "Ld", "Ld0", "Sh", "Sl", "Ir", "XF", "Lx"};
 
 static std::string symName(int sym)
 {
@@ -678,6 +678,22 @@ static Bytes symbolFrame(int sym, const ref::ReassemblyModel& m, bool& isNull, i
         case 24: fh.seq = 1; fh.version = 1; fh.msgType = 0; return ref::buildFrame(fh, {seg(ref::SEG_MID, 5, 25)});
         case 25: fh.seq = 1; fh.version = 1; fh.msgType = 0; return ref::buildFrame(fh, {seg(ref::SEG_LAST, 5, 26)});
         case 26: fh.seq = 1; fh.version = 1; fh.msgType = 0; return ref::buildFrame(fh, {seg(ref::SEG_LAST, 0, 27)});
+        // a stray LAST segment on this endpoint that continues ANOTHER endpoint's open message by the numbers (that message's version,
+        // type and next counter; 20 payload bytes): whatever state the other endpoint's message has left anywhere, it is not this
+        // endpoint's
+        case 31:
+        {
+            uint16_t seqx = 9;
+            uint8_t vx = 1, tx = ref::MT_DATA;
+            for (auto& kv : m.open)
+                if (kv.first != ref::EpKey{e.dev, e.str})
+                {
+                    seqx = (uint16_t) (kv.second.lastSeq + 1); vx = kv.second.version; tx = kv.second.msgType;
+                    break;
+                }
+            fh.seq = seqx; fh.version = vx; fh.msgType = tx;
+            return ref::buildFrame(fh, {seg(ref::SEG_LAST, 20, 32)});
+        }
         // a well-formed message whose TYPED payload its class rejects (a CAN frame reporting a CRC error: delivered, marked invalid)
         // followed in the same frame by a first segment: the decoder steps over the rejected payload by its declared length
         case 30:
